@@ -317,6 +317,8 @@ class BytesOp(Op):
             return 0 <= a[0] <= n.a["size"]
         if m == "assign":
             return len(a[0]) // 2 <= n.a["size"]
+        if m in ("edit", "edit_slice") and op["bi"] in w.immutable_contents:
+            return False  # the caller stored an immutable bytes object
         if m == "edit":
             return a[0] + len(a[1]) // 2 <= len(n.a["contents"])
         if m == "edit_slice":
@@ -334,7 +336,9 @@ class BytesOp(Op):
                 B.initialized_size = a[0]
 
         elif m == "assign":
-            v = bytearray(bytes.fromhex(a[0]))
+            v = bytes.fromhex(a[0])
+            if op.get("as", "bytearray") == "bytearray":
+                v = bytearray(v)
 
             def fn():
                 B.contents = v
@@ -366,6 +370,10 @@ class BytesOp(Op):
                 del c[a[0] :]
         elif m == "assign":
             n.a["contents"] = bytearray(bytes.fromhex(a[0]))
+            if op.get("as", "bytearray") == "bytes":
+                w.immutable_contents.add(op["bi"])
+            else:
+                w.immutable_contents.discard(op["bi"])
         elif m == "edit":
             v = bytes.fromhex(a[1])
             c[a[0] : a[0] + len(v)] = v
